@@ -134,6 +134,27 @@ def run(res, tier, seed):
         g = gen.TreeGen(rng, world.STRUCTSEQ_ARITY, max_nodes=rng.choice([6, 15, 40]),
                         max_depth=rng.choice([3, 6, 10]), max_arity=rng.choice([2, 4, 7]))
         oracle_inspect(res, cfg, g.tree(), random.Random(rng.getrandbits(48)))
+    # the array-level walk of Children() (cmd 21) against the arrays of the implementation's children
+    cmds, obs = [], []
+    for i in range(n):
+        cfg = gen.gen_cfg(rng, limit)
+        g = gen.TreeGen(rng, world.STRUCTSEQ_ARITY, max_nodes=rng.choice([6, 15, 40]),
+                        max_depth=rng.choice([3, 6, 10]), max_arity=rng.choice([2, 4, 7]))
+        t = g.tree()
+        with World(cfg) as w:
+            tree = realize(t, random.Random(i), {})
+            f = attempt(lambda: optree.tree_flatten(tree, **w.kw()))
+            if f[0] != 0:
+                o = f
+            else:
+                ch = attempt(lambda: tuple(world.abs_spec(c)[0] for c in f[1][1].children()))
+                o = ch
+        cmds.append((21, cfg, t))
+        obs.append(o)
+        res.count('array_children_%s' % ('ok' if o[0] == 0 else 'err'))
+    mod = runner.run_model(cmds)
+    for c, a, b in zip(cmds, obs, mod):
+        res.compare(c, a, b, 'cmd_arr_children')
 
 
 if __name__ == '__main__':
